@@ -148,7 +148,25 @@ fn read_socket(socket: &UdpSocket, local: SocketAddr, conn: &mut quiche::Connect
 
 impl H3Client {
     pub async fn connect(peer: SocketAddr, server_name: &str) -> Option<Self> {
+        Self::connect_with_window(peer, server_name, 1_000_000).await
+    }
+
+    /// `window` = the flow-control window the client grants per stream (a small one makes the endpoint wait for credit)
+    pub async fn connect_with_window(peer: SocketAddr, server_name: &str, window: u64) -> Option<Self> {
         let socket = UdpSocket::bind("127.0.0.1:0").await.ok()?;
+        // the endpoint sends a response as many small packets: a default receive buffer overflows under such a burst,
+        // and heavy loss is not what these scenarios are about
+        {
+            use std::os::unix::io::AsRawFd;
+            let size: libc::c_int = 16 << 20;
+            unsafe {
+                let p = &size as *const _ as *const libc::c_void;
+                let l = std::mem::size_of::<libc::c_int>() as libc::socklen_t;
+                if libc::setsockopt(socket.as_raw_fd(), libc::SOL_SOCKET, libc::SO_RCVBUFFORCE, p, l) != 0 {
+                    libc::setsockopt(socket.as_raw_fd(), libc::SOL_SOCKET, libc::SO_RCVBUF, p, l);
+                }
+            }
+        }
         let local = socket.local_addr().ok()?;
         let mut scid = [0u8; quiche::MAX_CONN_ID_LEN];
         for (i, b) in scid.iter_mut().enumerate() {
@@ -160,8 +178,8 @@ impl H3Client {
         config.set_max_recv_udp_payload_size(MAX_UDP);
         config.set_max_send_udp_payload_size(MAX_UDP);
         config.set_initial_max_data(10_000_000);
-        config.set_initial_max_stream_data_bidi_local(1_000_000);
-        config.set_initial_max_stream_data_bidi_remote(1_000_000);
+        config.set_initial_max_stream_data_bidi_local(window);
+        config.set_initial_max_stream_data_bidi_remote(window);
         config.set_initial_max_stream_data_uni(1_000_000);
         config.set_initial_max_streams_bidi(100);
         config.set_initial_max_streams_uni(100);
@@ -286,6 +304,15 @@ impl H3Client {
                 self.conn.on_timeout();
             }
         }
+    }
+
+    /// client-side transport counters, for diagnosing a stalled exchange
+    pub fn debug_stats(&self) -> String {
+        let st = self.conn.stats();
+        format!(
+            "recv={} sent={} lost={} retrans={} recv_bytes={} sent_bytes={} timeout={:?} draining={} peer_error={:?} local_error={:?}",
+            st.recv, st.sent, st.lost, st.retrans, st.recv_bytes, st.sent_bytes, self.conn.timeout(), self.conn.is_draining(), self.conn.peer_error(), self.conn.local_error()
+        )
     }
 
     pub fn close(&mut self) {
